@@ -15,3 +15,6 @@ for D in /verif/seeded/*/; do
   echo "$N $P exit=$RC violations=$V $FIRST" | tee -a $OUT
   git -C /repo checkout -- .
 done
+# refresh evidence: the evidence files are rewritten by every run, including the runs above on changed trees;
+# what is committed must describe the unchanged tree
+for P in $(cut -d' ' -f2 $OUT | sort -u); do /verif/bin/check $P --tier quick > /dev/null 2>&1 || echo "WARNING: check $P does not pass on the unchanged tree"; done
